@@ -961,6 +961,10 @@ def branch_values(stmts, sink, env0=None, max_paths=2000, follow_loops=False, op
                 t = canon(expand(st.test, env))
                 nt = negate(t)
                 tt, ntt = ctext(t), ctext(nt)
+                if isinstance(t, ast.Constant):
+                    # the test folded to a constant on this path (e.g. a temporary that is still None): one branch only
+                    run(list(st.body if t.value else st.orelse) + rest, env, conds, nodes)
+                    return
                 # a path that assumes both a condition and its negation is infeasible
                 if ntt not in conds:
                     run(list(st.body) + rest, env, conds + [tt], nodes + [t])
@@ -988,3 +992,68 @@ def branch_values(stmts, sink, env0=None, max_paths=2000, follow_loops=False, op
                 continue
     run(list(stmts), dict(env0 or {}), [], [])
     return outcomes
+
+
+def merge_outcomes(outs, max_vars=14):
+    """Boolean simplification of the outcomes of one sink. The outcomes of one statement (same value) form a DNF over the
+    path conditions; a condition matters for the sink only if flipping it changes the truth of that DNF for some assignment
+    (decided on the truth table, conditions treated as independent variables). Conditions that do not matter are dropped,
+    e.g. an earlier, already closed ``if``; an early ``return`` guard stays."""
+    import itertools
+    groups = {}
+    for o in outs:
+        groups.setdefault((id(o.stmt), o.vtext, ctext(o.target) if o.target is not None else None), []).append(o)
+    result = []
+    for key, members in groups.items():
+        lit = {}            # cond text -> (variable, polarity)
+        node_of = {}
+        terms = []
+        for o in members:
+            term = {}
+            for t, n in zip(o.conds, o.cond_nodes):
+                if t not in lit:
+                    nt_node = negate(n)
+                    nt = ctext(nt_node)
+                    var = min(t, nt)
+                    lit[t] = (var, t == var)
+                    lit.setdefault(nt, (var, nt == var))
+                    node_of.setdefault(t, n)
+                    node_of.setdefault(nt, nt_node)
+                var, pol = lit[t]
+                if term.get(var, pol) != pol:
+                    term = None     # contradictory path
+                    break
+                term[var] = pol
+            if term is not None:
+                terms.append(term)
+        variables = sorted({v for t in terms for v in t})
+        if not terms:
+            continue
+        if len(variables) > max_vars:
+            relevant = set(variables)
+        else:
+            def holds(assign):
+                return any(all(assign[v] == p for v, p in t.items()) for t in terms)
+            relevant = set()
+            idx = {v: i for i, v in enumerate(variables)}
+            for bits in itertools.product((False, True), repeat=len(variables)):
+                assign = dict(zip(variables, bits))
+                base = holds(assign)
+                for v in variables:
+                    if v in relevant:
+                        continue
+                    assign[v] = not assign[v]
+                    if holds(assign) != base:
+                        relevant.add(v)
+                    assign[v] = not assign[v]
+        projected = {frozenset((v, p) for v, p in t.items() if v in relevant) for t in terms}
+        # absorption
+        projected = {a for a in projected if not any(b < a for b in projected)}
+        text_of = {}
+        for t, (v, p) in lit.items():
+            text_of[(v, p)] = t
+        proto = members[0]
+        for term in projected:
+            texts = sorted(text_of[l] for l in term)
+            result.append(Outcome(texts, proto.value, proto.stmt, [node_of[t] for t in texts], proto.target))
+    return result
